@@ -178,6 +178,9 @@ func (s *nrSim) createNode(n *nrNodeM) {
 	if c.Pool != "" {
 		node.Labels["pool"] = c.Pool
 	}
+	if c.AnnoRes != nil {
+		node.Annotations[extension.AnnotationNodeReservation] = nrAnnoResJSON(c.AnnoRes)
+	}
 	node.Status.Capacity = corev1.ResourceList{corev1.ResourceCPU: nrCPUQ(c.CPU), corev1.ResourceMemory: nrMemQ(c.Mem), corev1.ResourcePods: *resource.NewQuantity(110, resource.DecimalSI)}
 	node.Status.Allocatable = corev1.ResourceList{corev1.ResourceCPU: nrCPUQ(nrMax0(c.CPU - c.KResCPU)), corev1.ResourceMemory: nrMemQ(nrMax0(c.Mem - c.KResMem)), corev1.ResourcePods: *resource.NewQuantity(110, resource.DecimalSI)}
 	s.st.put(nrKindNode, node)
@@ -703,6 +706,24 @@ func (s *nrSim) exec(op *nrOp) {
 	r.OpDone()
 }
 
+func nrAnnoResJSON(ch *nrNodeChange) string {
+	nr := extension.NodeReservation{Resources: corev1.ResourceList{}, ApplyPolicy: extension.NodeReservationApplyPolicy(ch.Policy)}
+	if ch.CPU > 0 {
+		nr.Resources[corev1.ResourceCPU] = nrCPUQ(ch.CPU)
+	}
+	if ch.Mem > 0 {
+		nr.Resources[corev1.ResourceMemory] = nrMemQ(ch.Mem)
+	}
+	if ch.CPUs > 0 {
+		nr.ReservedCPUs = fmt.Sprintf("0-%d", ch.CPUs-1)
+		if ch.CPUs == 1 {
+			nr.ReservedCPUs = "0"
+		}
+	}
+	b, _ := json.Marshal(&nr)
+	return string(b)
+}
+
 func (s *nrSim) nodeChange(n *nrNodeM, ch *nrNodeChange) bool {
 	cur := s.nodeObj(n)
 	if ch.What == "create" {
@@ -742,21 +763,7 @@ func (s *nrSim) nodeChange(n *nrNodeM, ch *nrNodeChange) bool {
 			}
 			delete(nn.Annotations, extension.AnnotationNodeReservation)
 		} else {
-			nr := extension.NodeReservation{Resources: corev1.ResourceList{}}
-			if ch.CPU > 0 {
-				nr.Resources[corev1.ResourceCPU] = nrCPUQ(ch.CPU)
-			}
-			if ch.Mem > 0 {
-				nr.Resources[corev1.ResourceMemory] = nrMemQ(ch.Mem)
-			}
-			if ch.CPUs > 0 {
-				nr.ReservedCPUs = fmt.Sprintf("0-%d", ch.CPUs-1)
-				if ch.CPUs == 1 {
-					nr.ReservedCPUs = "0"
-				}
-			}
-			b, _ := json.Marshal(&nr)
-			nn.Annotations[extension.AnnotationNodeReservation] = string(b)
+			nn.Annotations[extension.AnnotationNodeReservation] = nrAnnoResJSON(ch)
 		}
 	case "kubelet_res":
 		n.cfg.KResCPU, n.cfg.KResMem = ch.CPU, ch.Mem
